@@ -4,3 +4,5 @@
 ; cerrors / conduiterr packages under C20.
 (declare-fun is_fatal (Int) Bool)
 (assert (not (is_fatal 0)))
+; the context a cancel function belongs to (context.WithCancel)
+(declare-fun ctx_of (Int) Int)
